@@ -15,7 +15,7 @@
 //! children running `exec` — the ASan build (`LM_FP_ASAN_BIN`) and this debug build —
 //! restarts a child that died and attributes the death to the case whose `BEGIN`
 //! was the last one printed; it prints
-//!     <input line> => asan=<CLEAN|PANIC|ASAN(kind)|CRASH(sig)|NOASAN> [rel=<same, release-mode sanitizer build>] dbg=<CLEAN|PANIC|CRASH(sig)> :: <records>
+//!     <input line> => asan=<CLEAN|PANIC|ASAN(kind)|CRASH(sig)|NOASAN> [rel=<same, release-mode sanitizer build>] dbg=<CLEAN|PANIC|CRASH(sig)> dbg2=<same, start-aligned guard pages> :: <records>
 #![allow(unexpected_cfgs)]
 use std::io::{BufRead, BufReader, Write};
 use std::ops::Range;
@@ -114,6 +114,9 @@ mod guard_alloc {
     const PROT_RW: i32 = 3;
     const MAP_PRIVATE_ANON: i32 = 0x22;
     pub struct GuardAlloc;
+    /// LM_FP_GUARD=start: allocations START right after an inaccessible page (under-runs fault) instead of
+    /// ending right before one (over-runs fault); set once at process start.
+    pub static START: std::sync::atomic::AtomicBool = std::sync::atomic::AtomicBool::new(false);
     fn guarded(l: &Layout) -> bool {
         l.align() >= 32 && l.align() <= PAGE && l.size() > 0
     }
@@ -136,14 +139,19 @@ mod guard_alloc {
                 munmap(base, len);
                 return std::ptr::null_mut();
             }
-            base.add(PAGE + pages * PAGE - size)
+            if START.load(std::sync::atomic::Ordering::Relaxed) {
+                base.add(PAGE)
+            } else {
+                base.add(PAGE + pages * PAGE - size)
+            }
         }
         unsafe fn dealloc(&self, p: *mut u8, l: Layout) {
             if !guarded(&l) {
                 return System.dealloc(p, l);
             }
             let (size, pages) = shape(&l);
-            let base = p.add(size).sub(pages * PAGE + PAGE);
+            // a page-aligned pointer is start-placed (or the size is a whole number of pages: same mapping)
+            let base = if p as usize % PAGE == 0 { p.sub(PAGE) } else { p.add(size).sub(pages * PAGE + PAGE) };
             munmap(base, (pages + 2) * PAGE);
         }
     }
@@ -1254,6 +1262,10 @@ struct ChildOut {
 
 /// Run `lines` through `<exe> exec`, restarting after a death; returns per-line verdicts.
 fn run_child(exe: &str, asan: bool, lines: &[String]) -> Vec<ChildOut> {
+    run_child_env(exe, asan, lines, None)
+}
+
+fn run_child_env(exe: &str, asan: bool, lines: &[String], guard: Option<&str>) -> Vec<ChildOut> {
     let mut res: Vec<ChildOut> = Vec::with_capacity(lines.len());
     let mut next = 0usize;
     let mut hangs = 0usize;
@@ -1271,6 +1283,10 @@ fn run_child(exe: &str, asan: bool, lines: &[String]) -> Vec<ChildOut> {
         if asan {
             cmd.env("ASAN_OPTIONS", ASAN_OPTIONS);
         }
+        match guard {
+            Some(g) => cmd.env("LM_FP_GUARD", g),
+            None => cmd.env_remove("LM_FP_GUARD"),
+        };
         let mut child = match cmd.spawn() {
             Ok(c) => c,
             Err(_) => {
@@ -1297,13 +1313,13 @@ fn run_child(exe: &str, asan: bool, lines: &[String]) -> Vec<ChildOut> {
             s
         });
         let stdout = BufReader::new(child.stdout.take().unwrap());
-        // watchdog: a child that prints no progress line for LM_FP_HANG_SECS (default 40) seconds is
+        // watchdog: a child that prints no progress line for LM_FP_HANG_SECS (default 90) seconds is
         // killed and the case it had begun gets the verdict HANG (a kernel that no longer terminates
         // must not hang the check)
         let progress = std::sync::Arc::new(std::sync::atomic::AtomicU64::new(0));
         let done = std::sync::Arc::new(std::sync::atomic::AtomicBool::new(false));
         let hung = std::sync::Arc::new(std::sync::atomic::AtomicBool::new(false));
-        let limit: u64 = std::env::var("LM_FP_HANG_SECS").ok().and_then(|s| s.parse().ok()).unwrap_or(40);
+        let limit: u64 = std::env::var("LM_FP_HANG_SECS").ok().and_then(|s| s.parse().ok()).unwrap_or(90);
         let watchdog = {
             let (progress, done, hung, pid) = (progress.clone(), done.clone(), hung.clone(), child.id());
             std::thread::spawn(move || {
@@ -1429,6 +1445,19 @@ fn crashme(kind: &str) {
                 black_box(&m);
             }
         }
+        "stream-underflow" => {
+            // one row BEFORE a 4-row matrix: seen by the plain build with LM_FP_GUARD=start only
+            #[cfg(target_arch = "x86_64")]
+            unsafe {
+                use std::arch::x86_64::*;
+                let mut m = DenseMatrix::<u8, U32>::new(4).clone();
+                let st = m.stride();
+                let p = black_box(m[0].as_mut_ptr().sub(st));
+                _mm256_stream_si256(p as *mut __m256i, _mm256_setzero_si256());
+                _mm_sfence();
+                black_box(&m);
+            }
+        }
         "gather-oob" => {
             // `_mm256_i32gather_ps` one element past a 2-row f32 matrix (exact allocation): gathers are target
             // intrinsics the sanitizer does not instrument; the guard page of the plain build sees them
@@ -1485,6 +1514,10 @@ fn crashme(kind: &str) {
 }
 
 fn main() {
+    #[cfg(not(lm_asan))]
+    if std::env::var("LM_FP_GUARD").map(|v| v == "start").unwrap_or(false) {
+        guard_alloc::START.store(true, std::sync::atomic::Ordering::Relaxed);
+    }
     let a = parse_args();
     match a.cmd.as_str() {
         "gen" => {
@@ -1526,13 +1559,17 @@ fn main() {
             let t = std::thread::spawn(move || run_child(&asan_bin, true, &l2));
             let l3 = lines.clone();
             let t3 = rel_bin.map(|b| std::thread::spawn(move || run_child(&b, true, &l3)));
+            // plain build once more with start-aligned guard pages (under-runs of the matrices)
+            let (l4, me4) = (lines.clone(), me.clone());
+            let t4 = std::thread::spawn(move || run_child_env(&me4, false, &l4, Some("start")));
             let dbg = run_child(&me, false, &lines);
             let asan = t.join().unwrap();
             let rel = t3.map(|t| t.join().unwrap());
+            let dbg2 = t4.join().unwrap();
             for (i, l) in lines.iter().enumerate() {
                 let recs = asan[i].records.clone().or_else(|| dbg[i].records.clone()).unwrap_or_else(|| "-".to_string());
                 let relv = rel.as_ref().map(|r| format!(" rel={}", r[i].verdict)).unwrap_or_default();
-                println!("{} => asan={}{} dbg={} :: {}", l, asan[i].verdict, relv, dbg[i].verdict, recs);
+                println!("{} => asan={}{} dbg={} dbg2={} :: {}", l, asan[i].verdict, relv, dbg[i].verdict, dbg2[i].verdict, recs);
             }
         }
         "crashme" => {
@@ -1580,6 +1617,12 @@ fn main() {
                     if good { "" } else { " UNEXPECTED" }
                 );
                 ok &= good;
+            }
+            {
+                let o = Command::new(&me).arg("crashme").arg("stream-underflow").env("LM_FP_GUARD", "start").output();
+                let died = o.as_ref().map(|o| !o.status.success()).unwrap_or(false);
+                println!("debug(start-aligned) stream-underflow: {}{}", if died { "died" } else { "survived" }, if died { "" } else { " UNEXPECTED" });
+                ok &= died;
             }
             std::process::exit(if ok { 0 } else { 1 });
         }
